@@ -37,6 +37,20 @@ func (mgr *AuthManager) ClearAuthenticators() {
 	mgr.authenticators = make([]Authenticator, 0)
 }
 
+// RemoveClearTextPasswordAuthenticators removes the clear text password authenticators of the specified user whose
+// password differs from the specified one.
+func (mgr *AuthManager) RemoveClearTextPasswordAuthenticators(username string, exceptPassword string) {
+	kept := make([]Authenticator, 0, len(mgr.authenticators))
+	for _, authenticator := range mgr.authenticators {
+		clearTextAuthenticator, ok := authenticator.(*ClearTextPasswordAuthenticator)
+		if ok && clearTextAuthenticator.username == username && clearTextAuthenticator.password != exceptPassword {
+			continue
+		}
+		kept = append(kept, authenticator)
+	}
+	mgr.authenticators = kept
+}
+
 // Authenticate authenticates the connection with the startup message.
 func (mgr *AuthManager) Authenticate(conn Conn) (bool, error) {
 	if len(mgr.authenticators) == 0 {
